@@ -372,3 +372,22 @@ Proof.
   exists [2; 1; 3; 0]. split; [vm_compute; reflexivity|].
   apply run_fixpoint. intros [|[|[|[|i]]]]; try (vm_compute; reflexivity). destruct i; vm_compute; reflexivity.
 Qed.
+
+(* ================================================================================================ *)
+(* C (composition). traffic totals are reported once: all schedules, then the last quiescent report  *)
+(* ================================================================================================ *)
+From Coq Require Import ZArith.
+Theorem traffic_totals_reported_once (base : Z) ts sched :
+  forallb r_initial ts = true ->
+  let s := rrun true base ts sched in
+  forallb r_finished (snd s) = true ->
+  let sh' := report_alone true (fst s) in
+  (r_stats sh' = base + r_cnt (fst s))%Z /\ r_last sh' = r_cnt (fst s) /\ r_cnt sh' = r_cnt (fst s) /\ r_mu sh' = false /\
+  (r_stats (fst s) - base = zsum (r_calls (fst s)))%Z /\ (r_stats (fst s) - base <= r_cnt (fst s))%Z.
+Proof.
+  intros Hi s Hf sh'.
+  destruct (traffic_once_all_schedules base ts sched Hi) as (Hsum & _ & Hle & Hidle & Hfin). fold s in Hsum, Hle, Hidle, Hfin.
+  pose proof (Hfin Hf) as Hm. destruct (Hidle Hm) as [Hl Hc].
+  destruct (report_alone_complete base (fst s) Hm) as (H1 & H2 & H3 & H4); [lia|exact Hc|].
+  repeat split; assumption.
+Qed.
